@@ -168,8 +168,12 @@ UNIVERSAL = [
     "'1'", '"1"', "'null'", '"true"', "'A'", "\"'1'\"", "'[1]'", "!!str 1", "!!int '1'",
 ]  # fmt: skip
 
+# signed spellings of the number lookalikes (the yaml resolvers are keyed by the FIRST character of a scalar, so "-" / "+"
+# forms take other resolver lists than the unsigned ones)
+SIGNED = ["-1e3", "+1e3", "-1E+3", "+1.5e3", "-.5e1", "-1", "+1", "-1.0", "+.5", "-.inf", "+.inf", "-.nan", "-0x1F", "+0o7", "-1_000", "+1:30", "-01", "--1", "+-1", "-a", "+"]
+
 SPECIFIC = {
-    "str": ["x y", "a\nb", "1e+3", "._1", "~", "NO", "{}", "[]", "%", "@", "`", "!t", "&a", "*a", "|", ">", "?", "- a", "k:", ": v", "\t", "<<", "=", "0o7", "0b1", "1:2:3", "2001-01-01T00:00:00Z", "\"", "'", "\\", "''", "' '", "'a' 'b'"],
+    "str": ["x y", "a\nb", "1e+3", "._1", "~", "NO", "{}", "[]", "%", "@", "`", "!t", "&a", "*a", "|", ">", "?", "- a", "k:", ": v", "\t", "<<", "=", "0o7", "0b1", "1:2:3", "2001-01-01T00:00:00Z", "\"", "'", "\\", "''", "' '", "'a' 'b'"] + SIGNED,
     "int": ["-0", "0x10", "0o7", "0b11", "1_0", "+1", "007", "1:00", -10**20],
     "float": [-0.0, 5e-324, 1.7976931348623157e308, 0.1, 1 / 3, 1e15, 1e16, 1e17, 123456789.123456789, "1e+3", ".5", "5.", "1_0.5", "+.inf", "-.INF", ".NaN", "1:30.5", "0x10", "1", "-1", 3],
     "bool": ["false", "True", "FALSE", "no", "off", "n"],
@@ -203,7 +207,7 @@ SPECIFIC = {
 
 # reduced pools (used inside constructors, with declared defaults and in the structured parser shapes)
 P = {
-    "str": ["", "a", "1", "1e3", "null", "true", "[1]", " x ", "'1'", "é", "a\nb", "NO"],
+    "str": ["", "a", "1", "1e3", "null", "true", "[1]", " x ", "'1'", "é", "a\nb", "NO", "-1e3"],
     "int": [0, 1, -1, 10**20, "1", "0x10", "1_0"],
     "float": [0.5, 1.0, 1, -0.0, 1e22, 1e16, INF, NAN, "1e3", ".5", "1", True],
     "bool": [True, False, "true", "false", 1],
@@ -223,7 +227,7 @@ P = {
     "Any": [1, 1.0, True, "1", "'1'", None, [1, "a"], {"a": {"b": [1.0]}}, "null", NAN, "a: 1"],
 }  # fmt: skip
 
-KEYS = ["k", "1", "1e3", "null", "true", "a.b", " ", "", "1.5", "~", "no", "é", "'k'"]
+KEYS = ["k", "1", "1e3", "null", "true", "a.b", " ", "", "1.5", "~", "no", "é", "'k'", "-1e3", "+1", "-.inf"]
 DEFAULTS_LEAF = {
     "str": ["d", "1"], "int": [1, True, 1.0], "float": [1, 0.5, INF, True], "bool": [True, 1, "true"], "E": ["A"], "EY": ["null"], "ES": ["A", "a"],
     "LitA": ["a", None, "1"], "LitB": ["1", 2, "2"], "PositiveInt": [1, "2"], "ClosedUnitInterval": [1, 0.5], "Gt1Le5": [2, 2.5],
@@ -661,6 +665,9 @@ def build_parser(spec, dobj, has_default):
         pkw["default_env"] = True  # the process environment is a source of every parse (sub-parsers inherit it)
     if spec.get("enable_path"):
         kw["enable_path"] = True  # the value may be given as the path of a file that holds it
+    if "nargs" in spec:
+        assert shape in NARGS_SHAPES, shape
+        kw["nargs"] = spec["nargs"]  # the target argument takes a LIST of values of the type ("+", "*" or a number)
     p = _new(mode, env_prefix="APP", **pkw)
     if shape == "flat":
         p.add_argument("--x", type=build_type(tspec), **kw)
@@ -862,6 +869,8 @@ def render(spec, channel, value, cwd):
             return "parse_object", copy.deepcopy(obj), {}, None
         return "parse_string", json.dumps(obj), {}, None
     value = subst(value, cwd)
+    if "nargs" in spec:
+        return render_nargs(spec, channel, value)
     if channel == "argv-raw":
         if any("\x00" in a for a in value):
             return None
@@ -917,6 +926,63 @@ def render(spec, channel, value, cwd):
             return None
         return "parse_env", env, {}, None
     raise ValueError(channel)
+
+
+NARGS = ["+", "*", 2]
+NARGS_CHANNELS = ["argv@file1", "object@file1"]  # one item of several in a file of its own, the others inline
+NARGS_SHAPES = ("flat", "group", "sub_a", "sub_a_alias", "inner")
+NARGS_ITEM_FILES = ["sub/val0.yaml", "sub/val1.yaml", "sub/val2.yaml"]
+
+
+def render_nargs(spec, channel, items):
+    """Inputs of a parser whose target argument is declared with nargs: the value is a list of ITEMS of the type.
+    argv gives them as separate words after the option.  Channel "<how>@file": EVERY item lives in a file of its own and
+    is given as the path of that file; "<how>@file1": only the item at index 1 does, the others are given inline."""
+    shape, mode = spec["shape"], spec.get("mode", "yaml")
+    if not isinstance(items, list):
+        return None
+    how, _, where = channel.partition("@")
+    files, given = {}, list(items)
+    if where:
+        idx = range(len(items)) if where == "file" else [int(where[4:])]
+        if len(items) > len(NARGS_ITEM_FILES) or not items or any(i >= len(items) for i in idx):
+            return None
+        for i in idx:
+            files[NARGS_ITEM_FILES[i]] = to_text(items[i], mode)
+            # a path named in a config file is relative to the directory of that file (sub/), otherwise to the cwd
+            given[i] = NARGS_ITEM_FILES[i].split("/")[-1] if how in ("cfgfile", "parse_path") else NARGS_ITEM_FILES[i]
+    text_cwd = SUBDIR if where else None
+    obj, argv, _env = place(shape, given)
+    if how == "object":
+        return "parse_object", copy.deepcopy(obj), files, text_cwd
+    if how == "argv":
+        words = [argv_text(v) for v in given]
+        if any("\x00" in w or w.startswith("-") for w in words):
+            return None  # a word that starts with "-" is an option for argparse, not a value
+        return "parse_args", argv[:-1] + [argv[-1].split("=", 1)[0]] + words, files, text_cwd
+    text = to_text(obj, mode)
+    if how == "string":
+        return "parse_string", text, files, text_cwd
+    if how == "cfgfile":
+        return "parse_args", ["--cfg", CONF], {**files, CONF: text}, SUBDIR
+    if how == "parse_path":
+        return "parse_path", CONF, {**files, CONF: text}, SUBDIR
+    raise ValueError(channel)
+
+
+def nargs_values(t, n, quick):
+    """Lists of items for an argument of element type t declared with nargs=n (lengths that n admits and, for the
+    rejection side, one that it does not)."""
+    if is_classlike(t):
+        ip = [v for v in class_pool(t) if isinstance(v, dict)][: 3 if quick else 6]
+    elif isinstance(t, str):
+        ip = pool(t, wide=False)[: 4 if quick else 8]
+    else:
+        ip = [v for v in pool(t) if v not in ([], {}, None)][: 4 if quick else 8]
+    out = [[v] for v in ip] + [[ip[0], ip[-1]], [ip[-1], ip[0]], [ip[0], ip[0]], [ip[0], ip[1 % len(ip)], ip[-1]], []]
+    if isinstance(n, int):
+        out = [v for v in out if len(v) == n] + [[ip[0]]]
+    return dedupe(out)
 
 
 def to_text(obj, mode):
@@ -1066,7 +1132,9 @@ def parser_specs(tier):
         for t in SHAPE_TYPES_QUICK if quick else SHAPE_TYPES:
             vals = pool(t, wide=False) if isinstance(t, str) else pool(t)
             if quick:
-                vals = vals[:10]
+                # the three shapes that generate a dataclass per item cost ~90 ms per state: 6 values there (trimmed
+                # in round 4 to pay for the nargs axis), 10 elsewhere
+                vals = vals[: 6 if shape in ("optdc", "listdc", "dictdc") else 10]
             ds = defaults(t)
             for d, dform in default_variants(ds, 1 if quick else 2):
                 add(shape, t, d, dform, inputs_for(vals, CHANNELS + (["cfgfile"] if shape in ("group", "dataclass", "sub_a", "inner", "sub_a_alias", "sub_bc_alias") else [])))
@@ -1177,6 +1245,32 @@ def parser_specs(tier):
             ds = defaults(t)
             for d, dform in default_variants(ds, 1)[: 2 if quick else 3]:
                 add(shape, t, d, dform, inputs_for(vals, CHANNELS + ["cfgfile"]))
+    # --- the target argument declared with nargs: its value is a list of items of the type.  Items inline (all
+    # channels), and - with enable_path - every item / one item of several in a file of its own: the result then carries
+    # metadata INSIDE THE ITEMS OF A LIST
+    nargs_types = ["float", "E", "str", "Path_fr", "Decimal", ["Optional", "float"], ["DictStr", "float"], ["List", "E"], ["Tuple2", "float", "E"], "Any", "Base", ["Optional", "Point"]]
+    for n in NARGS:
+        for t in nargs_types if not quick or n == "+" else ["float", "E", ["DictStr", "float"], "Any"]:
+            vals = nargs_values(t, n, quick)
+            add("flat", t, UNSET, "raw", inputs_for(vals, CHANNELS + ["cfgfile"]), nargs=n)
+            if not is_classlike(t) and (not quick or n == "+"):
+                d = next(v for v in vals if len(v) == (n if isinstance(n, int) else 2))
+                for dd, dform in default_variants([d], 1)[1:]:
+                    add("flat", t, dd, dform, inputs_for(vals[:4], ["object", "argv"]), nargs=n)
+            if not quick and n != 2 or t == "E":
+                add("flat", t, UNSET, "raw", inputs_for(vals, CHANNELS), nargs=n, mode="json")
+    file_item_types = [["DictStr", "float"], ["DictStr", "E"], "Any", "MappingProxy", ["List", "float"], ["Union", "int", ["DictStr", "int"]], "Base", ["Optional", "Point"], ["Optional", "Mixed"]]
+    item_file_ch = ["argv@file", "object@file", "string@file", "cfgfile@file"] + NARGS_CHANNELS + ([] if quick else ["parse_path@file", "string@file1"])
+    for n in NARGS:
+        for t in file_item_types if not quick or n == "+" else [["DictStr", "float"], "Any"]:
+            vals = [v for v in nargs_values(t, n, quick) if v and all(isinstance(i, (dict, list)) for i in v)]
+            add("flat", t, UNSET, "raw", inputs_for(vals if n == "+" or not quick else vals[-3:], item_file_ch, empties=False), nargs=n, enable_path=True)
+    for shape in NARGS_SHAPES[1:]:
+        for t in ["E", ["DictStr", "float"]]:
+            vals = nargs_values(t, "+", quick)
+            add(shape, t, UNSET, "raw", inputs_for(vals, ["object", "argv", "string"]), nargs="+")
+        vals = [v for v in nargs_values(["DictStr", "float"], "+", quick) if v]
+        add(shape, ["DictStr", "float"], UNSET, "raw", inputs_for(vals, item_file_ch[:3] + NARGS_CHANNELS[:1], empties=False), nargs="+", enable_path=True)
     # argv-only spellings: appends, nested keys, repeated options
     for t, items in ARGV_RAW:
         add("flat", t, UNSET, "raw", [["argv-raw", a] for a in items])
